@@ -301,3 +301,133 @@ pub fn cmd_probe(args: &[String]) {
         }
     }
 }
+
+
+// ---------------------------------------------------------------- S11: exhaustive opcode *sequences* through live objects
+//
+// S1 builds every probed state from fresh objects, so nothing in it is aliased.  Here every sequence of guarded
+// opcodes up to a depth is executed from the empty state on a real generator (real cells, DUP aliases, memo copies,
+// in-place mutation of shared containers), one `process_stack_ops` at a time, and the live object graph after every
+// step is reported; the Lean driver replays the same sequences on the object-level model.
+
+/// the argument the emitter would hand to `process_stack_ops` (one canonical value per opcode)
+fn canonical_arg(name: &str, memo_len: usize) -> Option<Vec<u8>> {
+    let s = |x: &str| Some(x.as_bytes().to_vec());
+    match name {
+        "Int" => s("7\n"),
+        "BinInt" => Some(vec![1, 0, 0, 0]),
+        "BinInt1" => Some(vec![200]),
+        "BinInt2" => Some(vec![1, 2]),
+        "Long" => s("5L\n"),
+        "Long1" => Some(vec![4, 1, 0, 0, 0]),
+        "Long4" => Some(vec![4, 0, 0, 0, 1, 0, 0, 0]),
+        "String" => s("'ab'\n"),
+        "Unicode" => s("ab\n"),
+        "ShortBinUnicode" | "BinUnicode" | "BinUnicode8" => s("ab"),
+        "BinString" | "ShortBinString" | "BinBytes" | "ShortBinBytes" | "BinBytes8" | "ByteArray8" => Some(vec![0, 255]),
+        "Float" => s("0.5\n"),
+        "BinFloat" => Some(vec![0x3f, 0xe0, 0, 0, 0, 0, 0, 0]),
+        "Global" | "Inst" => s("os\nsystem\n"),
+        "PersID" => s("pid_1\n"),
+        "Get" => s("0\n"),
+        "BinGet" => Some(vec![0]),
+        "LongBinGet" => Some(vec![0, 0, 0, 0]),
+        "Put" => Some(format!("{}\n", memo_len).into_bytes()),
+        "BinPut" => Some(vec![(memo_len % 256) as u8]),
+        "LongBinPut" => Some((memo_len as u32).to_le_bytes().to_vec()),
+        "Ext1" => Some(vec![1]),
+        "Ext2" => Some(vec![1, 0]),
+        "Ext4" => Some(vec![1, 0, 0, 0]),
+        _ => None,
+    }
+}
+
+/// opcodes that continue a prefix: every structural opcode and one value-pushing opcode per kind that a guard or an
+/// effect can tell apart
+fn continues(name: &str) -> bool {
+    !matches!(
+        name,
+        "BinInt" | "BinInt1" | "BinInt2" | "Long" | "Long1" | "Long4" | "String" | "BinString" | "ShortBinString" | "BinBytes"
+            | "ShortBinBytes" | "BinBytes8" | "ByteArray8" | "NextBuffer" | "NewTrue" | "NewFalse" | "ShortBinUnicode" | "BinUnicode"
+            | "BinUnicode8" | "Float" | "BinFloat" | "Ext1" | "Ext2" | "Ext4" | "PersID" | "LongBinGet" | "LongBinPut" | "Proto"
+            | "Stop" | "Frame" | "ReadOnlyBuffer" | "Tuple3" | "Tuple2"
+    )
+}
+
+type Step = (u8, Option<Vec<u8>>);
+
+fn arg_hex(a: &Option<Vec<u8>>) -> String {
+    match a {
+        None => "-".to_string(),
+        Some(a) if a.is_empty() => "e".to_string(),
+        Some(a) => hex(a),
+    }
+}
+
+/// a live generator after `steps`, numbering its cells from scratch; None if a step panicked
+fn run_steps(p: usize, steps: &[Step]) -> Option<pickle_fuzzer::Generator> {
+    let steps = steps.to_vec();
+    std::panic::catch_unwind(move || {
+        let mut g = verif::with_state(p, false, true, true, "", &[], p >= 2).unwrap();
+        verif::graph_start();
+        let _ = verif::snapshot(&g);
+        for (op, arg) in &steps {
+            verif::apply(&mut g, *op, arg.as_deref());
+            let _ = verif::snapshot(&g);
+        }
+        g
+    })
+    .ok()
+}
+
+fn seq_node(p: usize, prefix: &mut Vec<Step>, depth: usize, names: &std::collections::HashMap<u8, String>, counter: &mut u64, shard: (u64, u64)) {
+    let Some(g) = run_steps(p, prefix) else { return };
+    let valid = verif::valid_opcodes(&g);
+    let memo_len = g.state.memo.len();
+    drop(g);
+    let kids: Vec<Step> = valid.iter().map(|b| (*b, canonical_arg(&names[b], memo_len))).collect();
+    *counter += 1;
+    if *counter % shard.1 == shard.0 {
+        let mut parts: Vec<String> = Vec::new();
+        for (op, arg) in &kids {
+            prefix.push((*op, arg.clone()));
+            let d = match run_steps(p, prefix) {
+                Some(g) => match verif::snapshot(&g).graph {
+                    Some(t) => format!("{:016x}", fnv(t.bytes())),
+                    None => "nograph".to_string(),
+                },
+                None => "panic".to_string(),
+            };
+            prefix.pop();
+            parts.push(format!("{:02x}:{}:{}", op, arg_hex(arg), d));
+        }
+        let pre: Vec<String> = prefix.iter().map(|(op, a)| format!("{:02x}:{}", op, arg_hex(a))).collect();
+        println!(
+            "seq P={} prefix={} valid={} children={}",
+            p,
+            if pre.is_empty() { "-".to_string() } else { pre.join(",") },
+            if valid.is_empty() { "-".to_string() } else { hex(&valid) },
+            if parts.is_empty() { "-".to_string() } else { parts.join(";") }
+        );
+    }
+    if prefix.len() < depth {
+        for (op, arg) in kids {
+            if continues(&names[&op]) {
+                prefix.push((op, arg));
+                seq_node(p, prefix, depth, names, counter, shard);
+                prefix.pop();
+            }
+        }
+    }
+}
+
+pub fn cmd_seq(args: &[String]) {
+    let depth: usize = crate::arg_val(args, "--depth", "2").parse().unwrap();
+    let shard: Vec<u64> = crate::arg_val(args, "--shard", "0/1").split('/').map(|x| x.parse().unwrap()).collect();
+    let names: std::collections::HashMap<u8, String> = verif::opcode_table().into_iter().map(|(n, b)| (b, n)).collect();
+    std::panic::set_hook(Box::new(|_| {}));
+    for p in 0..6 {
+        let mut counter = 0u64;
+        seq_node(p, &mut Vec::new(), depth, &names, &mut counter, (shard[0], shard[1]));
+    }
+}
